@@ -97,4 +97,15 @@ theorem cli_output (a : CliArgs α) :
   simp [Cli.run]
 
 end
+
+/-- **the zone setter**: a name the zone database does not know raises ValueError and leaves the
+    location exactly as it was; a known name replaces the zone and nothing else -/
+theorem setTimezone_rejected {α : Type} (st : LocState α) (name : Str) :
+    setTimezone st name false = (st, some .bareValueError) := rfl
+
+theorem setTimezone_accepted {α : Type} (st : LocState α) (name : Str) :
+    (setTimezone st name true).2 = none ∧ (setTimezone st name true).1.tz = name
+    ∧ (setTimezone st name true).1.lat = st.lat ∧ (setTimezone st name true).1.lon = st.lon
+    ∧ (setTimezone st name true).1.dep = st.dep := ⟨rfl, rfl, rfl, rfl, rfl⟩
+
 end Astral.C19
